@@ -949,7 +949,7 @@ NOT_PROVED = NOT_PROVED + ["that a Yule-Walker fit always yields a stationary mo
 
 # --- deep theorems (Rounding3)
 PROOF_MODULES = PROOF_MODULES + ['Compute.Lemmas.AcovfRounding', 'Compute.Lemmas.AcfRounding', 'Compute.Lemmas.MatmulRounding', 'Compute.Props.Rounding3']
-REQUIRED_THEOREMS = REQUIRED_THEOREMS + ['Cv.Rounding3.acovf_error', 'Cv.Rounding3.acovf_zero_error', 'Cv.Rounding3.acovf_mean_term_first_order', 'Cv.Rounding3.acf_abs_le', 'Cv.Rounding3.acf_zero_error', 'Cv.Rounding3.acf_zero_error_idem', 'Cv.Rounding3.f64_acf_note', 'Cv.Rounding3.matvec_error']
+REQUIRED_THEOREMS = REQUIRED_THEOREMS + ['Cv.Rounding3.acovf_error', 'Cv.Rounding3.acovf_zero_error', 'Cv.Rounding3.acovf_mean_term_first_order', 'Cv.Rounding3.acf_abs_le', 'Cv.Rounding3.acf_zero_error', 'Cv.Rounding3.acf_zero_error_idem', 'Cv.Rounding3.stdmodel_acf_note', 'Cv.Rounding3.matvec_error']
 NOT_PROVED = [x for x in NOT_PROVED if not any(k in str(x) for k in ('floating-point rounding',))]
 NOT_PROVED = NOT_PROVED + ['rounding of the fitted coefficients and forecasts (oracle only); for acovf/acf the float-level claims ARE proved in the standard model (Props/Rounding3): acovf error bound (with a provably necessary first-order mean term for lag k > 0), |acf| <= 1 + gamma, |acf(0) - 1| <= gamma_4']
 
@@ -984,3 +984,8 @@ NOT_PROVED = [_reword(x) for x in NOT_PROVED]
 NOT_PROVED = NOT_PROVED + ["the convergence theorems of Props/C13Conv take ARBITRARY coefficients with sum|phi_j| < 1 or roots inside the "
                            "unit disc; only fit_forecast_tendsto mentions arFit. That a given fit meets either condition is not proved "
                            "(oracle: horizon >= 200 convergence check on stationary fits)"]
+
+# --- review repairs in the Rounding layer (renamed stdmodel_* theorems, underflow-aware variants, genuine FlModel instance; wired by the lead)
+PROOF_MODULES = PROOF_MODULES + [m for m in ['Compute.Lemmas.FlModelGrid', 'Compute.Props.RoundingGrid'] if m not in PROOF_MODULES]
+REQUIRED_THEOREMS = REQUIRED_THEOREMS + [t for t in ['Cv.RoundingGrid.AR.arA', 'Cv.FlModel.grid_abs_sub_le', 'Cv.FlModel.grid_idem', 'Cv.FlModel.grid_mono', 'Cv.FlModel.grid_rnd_one', 'Cv.FlModel.grid_rnd_natCast', 'Cv.FlModel.grid_rnd_dyadic', 'Cv.FlModel.f64grid_u', 'Cv.FlModel.f64grid_mono'] if t not in REQUIRED_THEOREMS]
+NOT_PROVED = list(NOT_PROVED) + ['theorems named stdmodel_* hold in the idealised standard model (fl(x) = x(1+d) for every operation, library functions with relative error <= u_f for every argument) at u = 2^-53; they describe binary64 only where nothing overflows or underflows (for exp: arguments in [-708.39, 709.78]); outside that range computed values may be exactly 0 or inf', 'FlModel has a genuine instance, FlModel.grid p (radix 2, p digits, round to nearest, unbounded exponent; f64grid has u = 2^-53), proved to satisfy the standard model and to be idempotent and monotone, with integers <= 2^p and dyadics exact (Lemmas/FlModelGrid); headline rounding theorems are instantiated on it (Props/RoundingGrid); overflow and underflow remain outside the model']
